@@ -32,7 +32,8 @@ CHECKS = {
          "combine_by (same-kind operands flatten, reading order), the operator dunders and __invert__ (double negation cancels). One known finding (xor exact-type shortcut) - hence 'other', not 'proof'; _parse_arg and the LogicalMeta operators of data classes are interfaces.", "DESIGN 3 C09"),
  "C19": ("other", "contract-based deductive verification: freshness / frame obligations on the real functions",
          "copy_value rebuilds list/set/frozenset/tuple/dict at every depth (fresh result, items are copies), ParserField.get_default hands out only copy_value results (force_default, default, default_factory) with the documented gates; "
-         "every contracted parse function carries `no input mutation` frame obligations and `fresh result`. Cross-call state (write sets of parser objects, generators) is not decided - hence 'other'.", "DESIGN 3 C19"),
+         "every contracted parse function carries `no input mutation` frame obligations and `fresh result`; the generated __init__ only reads the caller's dict; an AST audit shows that no parse-path function (about 100) writes to a parser, field, class or transformer object. "
+         "Generator wrappers and memoisation outside the registry are not decided - hence 'other'.", "DESIGN 3 C19"),
  "C05": ("other", "contract-based deductive verification of the field predicates against truth tables written from the documentation; consistency lemma",
          "ParserField.is_required / is_no_input / always_no_input / is_no_output / always_no_output / get_on_error / get_default, BaseParser.parse_addition proved against the documented tables for bool / mode-string / callable settings; "
          "always_* and is_* agree (lemma). The two field loops (data_first_parse, field_first_parse) are not under contract - hence 'other'.", "DESIGN 3 C05"),
@@ -46,8 +47,8 @@ CHECKS = {
          "Termination of the converter loops and the function-call wrappers are not decided - hence 'other'.", "DESIGN 3 C04"),
  "C12": ("other", "contract-based deductive verification of the preference-dependent branches of the converters and container parsers; one syntactic audit",
          "Promises proved on the real code: _attempt_from (no unwrapping under no_explicit_cast; a multi-element collection never collapses under no_data_loss), to_null, to_bool (only unambiguous booleans under no_data_loss), "
-         "to_float / to_integer (only numbers under no_explicit_cast), _parse_tuple_args excess rule, bytes decode strictly (audit). The subset clause (whatever converts under the flags converts equally without them) "
-         "and the date/time converters are not decided - hence 'other'. One known finding (1/0 -> bool under no_explicit_cast).", "DESIGN 3 C12"),
+         "to_float / to_integer (only numbers under no_explicit_cast), _parse_tuple_args excess rule, transform_dataclass list rule, bytes decode strictly (audit). The subset clause (whatever converts under the flags converts to an equal value of the same type without them) "
+         "is proved by self-composition of the real body for to_null and to_bool only; the other converters and the date/time converters are not decided - hence 'other'. One known finding (1/0 -> bool under no_explicit_cast).", "DESIGN 3 C12"),
  "C01": ("other", "contract-based deductive verification: type-conformance postconditions on converters and structural postconditions on the container parsers",
          "Proved: to_null / to_bool / to_float / to_integer return an instance of the requested (sub)class on every exit; TypeTransformer.apply / __call__ return the leaf conversion; the container parsers return element-wise converted results "
          "(C11 contracts) and Rule.parse returns only after every validator and raise_error. The structural-induction lemma over all declared types and the remaining converters are not done - hence 'other'.", "DESIGN 3 C01"),
